@@ -1129,6 +1129,12 @@ pub fn interpreter_violations(h: &Hist, kinds: &[&str]) -> Vec<Finding> {
 pub fn verdict_findings(h: &Hist, sequential: bool) -> Vec<Finding> {
     let mut out = Vec::new();
     match &h.ex.outcome.verdict {
+        // a panic raised by the harness itself (its sources are compiled with relative paths) is a
+        // harness failure, never a verdict about the crate
+        Verdict::Panic(t, msg) if msg.contains(" at src/") => out.push(Finding::new(
+            "HarnessPanic",
+            format!("harness thread {} panicked: {}", t, msg),
+        )),
         Verdict::Panic(t, msg) => out.push(
             h.base_facts(Finding::new("Panic", format!("thread {} panicked: {}", t, msg)))
                 .fact("message", msg.split(" at ").next().unwrap_or("").to_string()),
